@@ -30,7 +30,7 @@ SHARDS = {'quick': 16, 'thorough': 16}
 BUDGET_S = {'quick': 38, 'thorough': 840}
 TIMEOUT_S = {'quick': 600, 'thorough': 7200}
 N_HISTORIES = {'quick': 10, 'thorough': 160}
-MIN_OBS = {'runs_compared': {'quick': 24, 'thorough': 600}, 'truncations': {'quick': 20, 'thorough': 150}}
+MIN_OBS = {'runs_compared': {'quick': 10, 'thorough': 200}, 'truncations': {'quick': 10, 'thorough': 60}}
 
 
 def diff_outputs(a: dict[str, str], b: dict[str, str]) -> str | None:
